@@ -24,18 +24,18 @@ KINDS_FULL = ('S', 'F3', 'F2C', 'C', 'E', 'X', 'N')
 def bounds(tier):
     return {'enqueues': 3 if tier == 'quick' else 4, 'kinds_3': list(KINDS_FULL),
             'kinds_4': list(KINDS_QUICK) if tier == 'thorough' else None, 'streams': [2, 4], 'fragment_size': 64,
-            'framings': ['tcp', 'msg']}
+            'framings': ['tcp', 'msg'] if tier == 'quick' else ['tcp', 'msg', 'quic', 'h3']}
 
 
 def make_units(tier):
     units = []
-    for flavour in ('tcp', 'msg'):
+    for flavour in ('tcp', 'msg') if tier == 'quick' else ('tcp', 'msg', 'quic', 'h3'):
         kinds = KINDS_FULL
         alpha = [(k, s) for s in (2, 4) for k in kinds] + [('PRIO', 0)]  # PRIO = send_priority_frame(KEEPALIVE)
         for first in alpha:
             for second in alpha:
                 units.append({'flavour': flavour, 'prefix': [list(first), list(second)], 'n': 3, 'kinds': list(kinds), 'prio': True})
-        if tier == 'thorough':
+        if tier == 'thorough' and flavour in ('tcp', 'msg'):
             alpha4 = [(k, s) for s in (2, 4) for k in KINDS_QUICK]
             for a, b_ in itertools.product(alpha4, alpha4):
                 units.append({'flavour': flavour, 'prefix': [list(a), list(b_)], 'n': 4, 'kinds': list(KINDS_QUICK), 'prio': False})
